@@ -8,7 +8,7 @@ from . import _ensemble as E
 PROP = "C01"
 LEVEL = "exploration"
 RULE = ("cells = target {interior correlated Gaussian, bimodal 0.3/0.7, exponential at a hard edge, half-Gaussian at a hard edge, von Mises on a periodic coordinate, half-Gaussian on a reflective "
-        "coordinate} x kernel x resampler x clustering x fault arm {fault-free, crash->resume, pooled evaluation}; each cell = R independent seeded world runs at N and 4N particles; estimands per run "
+        "coordinate} x kernel x resampler x clustering x fault arm {fault-free, crash->resume, crash->resume with another particle count, pooled evaluation}; each cell = R independent seeded world runs at N and 4N particles; estimands per run "
         "(standardised by the true posterior scale): means, variances, marginal CDF at 5 points, mode mass; persistent-bias rule: |b_4N|-delta > 6 se_4N AND |b_4N|-0.6|b_N| > 3 se_comb; "
         "plus a stage ensemble of the resampling stage (real Resampler.run on constructed weighted pools: share of each weight bin vs its weight, |z|<=6); "
         "evaluations = simulated runs; distinct = cells x particle counts; non-trivial = the run completed and produced estimates")
@@ -30,6 +30,7 @@ def cell_list(tier):
             dict(target="halfgauss_reflective", kernel="tpcn", resample="mult", clustering=False),
             dict(target="gauss", kernel="tpcn", resample="syst", clustering=False, arm="crash_resume"),
             dict(target="gauss", kernel="rwm", resample="mult", clustering=False, arm="pool"),
+            dict(target="gauss", kernel="rwm", resample="syst", clustering=False, arm="resume_reconfig"),
             dict(target="gauss", kernel="tpcn", resample="mult", clustering=False, vv=0.04),
         ]
     else:
@@ -39,9 +40,10 @@ def cell_list(tier):
                     for cl in (False, True):
                         cells.append(dict(target=tgt, kernel=k, resample=rs, clustering=cl))
         for k in ("tpcn", "rwm"):
-            for arm in ("crash_resume", "pool", "vector"):
+            for arm in ("crash_resume", "pool", "vector", "resume_reconfig"):
                 cells.append(dict(target="gauss", kernel=k, resample="mult", clustering=False, arm=arm))
                 cells.append(dict(target="bimodal", kernel=k, resample="syst", clustering=True, arm=arm))
+            cells.append(dict(target="gauss", kernel=k, resample="syst", clustering=False, arm="resume_reconfig", factor=0.5))
             cells.append(dict(target="gauss", kernel=k, resample="mult", clustering=False, vv=0.04))
             cells.append(dict(target="corr", kernel=k, resample="syst", clustering=True, vv=0.1))
     return cells
